@@ -19,7 +19,7 @@ RULE = (
 )
 ASSUMPTIONS = [
     "the invariant is evaluated through the public .parent/.children of every object reachable from the universe",
-    "hooks only raise (they never mutate the tree themselves); every single fault position is exercised with an Exception and with an interrupt-like BaseException",
+    "hooks raise, or edit the tree themselves (plans 'evict': detach a sibling / re-file a child), and in every second case they read the whole forest when invoked; every single fault position is exercised with an Exception and with an interrupt-like BaseException",
     "any exception class is acceptable for this property; only the link invariant and 'no internal assertion fires' are judged",
 ]
 CLASS_SPECS = [
@@ -46,7 +46,7 @@ def check_blind(case, acc):
     if problem is not None:
         raise Violation("link-invariant", "after the read-free history %s: %s" % ([(s["op"], s.get("plan")) for s in case["steps"]], problem))
     for op, exc, _ in records:
-        if isinstance(exc, AssertionError):
+        if isinstance(exc, AssertionError) and not isinstance(exc, mut.Veto):
             raise Violation("internal-assertion", "assertion fired in %s of a read-free history: %r" % (op, exc))
     acc.nontrivial(len(records) >= 2)
     acc.tag("blind_histories")
@@ -95,7 +95,7 @@ def check_wide(case, acc):
     kids = list(range(2, width + 2))
     for op in (["children", 0, kids, "list"], ["children", 0, list(reversed(kids)), "tuple"], ["children", 1, kids[::2], "gen"], ["children", 0, kids[:6:2] + kids[1::2], "list"], ["del", 1], ["children", 1, kids, "list"]):
         exc = mut.execute(universe, op)
-        if isinstance(exc, AssertionError):
+        if isinstance(exc, AssertionError) and not isinstance(exc, mut.Veto):
             raise Violation("internal-assertion", "assertion fired in a legal children assignment of %d nodes: %r" % (len(op[2]) if len(op) > 2 else 0, exc))
         if exc is not None:
             raise Violation("link-invariant", "legal children call with %d children raised %s: %s" % (len(op[2]) if len(op) > 2 else 0, type(exc).__name__, exc))
@@ -119,7 +119,8 @@ def check_case(case, acc):
         problem = mut.consistency_problem(universe, rec.labels)
         if problem is not None:
             raise Violation("link-invariant", "after %s plan=%s (raised %s): %s; before=%s after=%s" % (step.op, step.plan, type(step.exc).__name__, problem, step.pre, step.post))
-        if isinstance(step.exc, AssertionError):
+        if isinstance(step.exc, AssertionError) and not isinstance(step.exc, mut.Veto) and not step.plan.get("evict"):
+            # (a hook that evicts a child which the call itself is attaching trips the optional 'all requested children are attached' self-check: the hook's doing)
             raise Violation("internal-assertion", "assertion fired in %s plan=%s: %r; before=%s" % (step.op, step.plan, step.exc, step.pre))
         if step.post != step.pre:
             changed["n"] += 1
@@ -130,7 +131,8 @@ def check_case(case, acc):
         if isinstance(step.exc, RecursionError):
             changed["recursion"] += 1
 
-    mut.run_case(case, per_step)
+    # in every second case the hooks also READ the whole forest (parent/children of every node) when they are invoked
+    mut.run_case(case, per_step, take_snapshots=bool(case.get("reading_hooks")))
     acc.nontrivial(changed["n"] > 0 or changed["failed_after_hook"] > 0)
     acc.tag("steps", len(case["steps"]))
     acc.tag("steps_changing_links", changed["n"])
@@ -199,11 +201,11 @@ def run_task(task, acc):
     if task["engine"] == "enum":
         spec = ENUM_SPECS[task["spec"]]
         maxlen = None if task["n"] <= 3 else 3
-        cases = mut.enum_fault_cases(spec, task["n"], task["index"], task["count"], fault_hooks=mut.HOOKS, pairs=task["pairs"], invalid=True, maxlen=maxlen, routes=task["routes"])
-        acc.run_enum(check_case, (dict(c, assertions=task["assertions"]) for c in _with_interrupts(cases)))
+        cases = mut.enum_fault_cases(spec, task["n"], task["index"], task["count"], fault_hooks=mut.HOOKS, pairs=task["pairs"], invalid=True, maxlen=maxlen, routes=task["routes"], evict=task["n"] <= 2 or (task["n"] == 3 and task["spec"] < 2 and task["assertions"] == 1))
+        acc.run_enum(check_case, (dict(c, assertions=task["assertions"], reading_hooks=i % 2) for i, c in enumerate(_with_interrupts(cases))))
     else:
-        strat = mut.history_strategy(max_nodes=7, max_steps=30, faults="all", invalid=True, class_specs=CLASS_SPECS)
-        acc.run_hypothesis(check_case, strat.map(lambda c: dict(c, assertions=task["assertions"])), task["examples"], task["seed"])
+        strat = mut.history_strategy(max_nodes=7, max_steps=30, faults="all+evict", invalid=True, class_specs=CLASS_SPECS)
+        acc.run_hypothesis(check_case, strat.map(lambda c: dict(c, assertions=task["assertions"], reading_hooks=len(c["steps"]) % 2)), task["examples"], task["seed"])
 
 
 def evidence_extra(total, tier):
